@@ -5,3 +5,4 @@ import Corerad.Props.C13
 import Corerad.Props.C14
 import Corerad.Props.C15
 import Corerad.Props.C16
+import Corerad.Props.C19
